@@ -649,7 +649,7 @@ Definition run_wb (op : bytes) (args0 : list bytes) : bytes :=
 
 (* ---- lifecycle (C06/C14/C16) ----
    lf.run <max> <action> ...   UC user close | CL current conn lost | RB retry loop head | DD.<0|1> dial done |
-                               AD.<0|1> auth done | DO request write | X.<i>.<r|w|d> goroutine of conn i exits
+                               AD.<0|1> auth done (1: the callback runs) | FN reconnecting() returns | DO request write | X.<i>.<r|w|d> goroutine of conn i exits
    output: closed=<b> cb=<n> recon=<n> conns=<n> open=<n> live=<n>   or PANIC
    lf.rnw: the same without open= (WebSocket peer: half-open sockets are not probed) *)
 Definition parse_lact (e : bytes) : option lact :=
@@ -657,6 +657,7 @@ Definition parse_lact (e : bytes) : option lact :=
   else if bytes_eqb e (str "CL") then Some LConnLost
   else if bytes_eqb e (str "RB") then Some LRetryBegin
   else if bytes_eqb e (str "DO") then Some LDo
+  else if bytes_eqb e (str "FN") then Some LFinish
   else match split_on "."%byte e with
        | [k; a] => if bytes_eqb k (str "DD") then option_map LDialDone (unbool a)
                    else if bytes_eqb k (str "AD") then option_map LAuthDone (unbool a) else None
